@@ -260,13 +260,13 @@ def backendOf (key : String) (i : Info) : Backend :=
   { id := key, url := i.url, host := i.host, allowHttp := i.scheme = "http", secret := i.secret,
     limit := i.limit, stream := i.stream, screen := i.screen }
 
+def dropKey (key : String) (es : List Backend) : List Backend := es.filter (fun e => e.id ≠ key)
+
 /-- Drop the entry of `key` from the list of `host`; an emptied host is deleted. -/
 def removeKey (t : Table) (key host : String) : Table :=
   match tget t host with
   | none => t
-  | some es =>
-    let es' := es.filter (·.id ≠ key)
-    if es' = [] then tdel t host else tset t host es'
+  | some es => if dropKey key es = [] then tdel t host else tset t host (dropKey key es)
 
 /-- New entries are filed in key order (the order in which a starting server receives them). -/
 def insertSorted (b : Backend) : List Backend → List Backend
